@@ -30,11 +30,13 @@ class Contract:
 
 
 class LoopSpec:
-    def __init__(self, qual, ordinal, inv, modifies_locals=(), modifies=(), props=(), body=None, elem_types=None, order_independent=False):
+    def __init__(self, qual, ordinal, inv, modifies_locals=(), modifies=(), props=(), body=None, elem_types=None, order_independent=False, ordered=False, positions=()):
         self.qual = qual
         self.ordinal = ordinal
         self.inv = inv                      # fn(c) -> [(name, clause)]  ; c.loc(name), c.visited, c.index
         self.modifies_locals = list(modifies_locals)
+        self.ordered = ordered              # the loop visits list items in position order: element = at(seq, |visited|)
+        self.positions = list(positions)    # local lists whose appends keep track of positions
         self.order_independent = order_independent  # justification (in the sidecar) that the body commutes: no det obligation
         self.elem_types = elem_types or {}  # element type hints for local containers the loop fills
         self.body = body                    # fn(c) -> clauses checked at the end of every iteration (locals of the body visible)
